@@ -1112,6 +1112,18 @@ def _convert_batch(data, batch, cached_file=None, name=""):
     return list(split_generator(data, batch))
 
 
+def _has_own_hessp(model):
+    """
+    ``Model.grad_hessp_batch`` differentiates the default likelihood. A model
+    class that replaces ``nll_grad_batch`` (cfit, custom models, ...) has to
+    bring its own ``grad_hessp_batch`` as well.
+    """
+    cls = type(model)
+    if getattr(cls, "nll_grad_batch", None) is Model.nll_grad_batch:
+        return True
+    return getattr(cls, "grad_hessp_batch", None) is not Model.grad_hessp_batch
+
+
 class FCN(object):
     """
     This class implements methods to calculate the NLL as well as its derivatives for a general function.
@@ -1274,6 +1286,11 @@ class FCN(object):
         return g + constr_grad, h + constr_hessp
 
     def get_grad_hessp(self, x, p, batch):
+        if not _has_own_hessp(self.model):
+            # the model defines its own likelihood but no Hessian-vector
+            # product: use its own Hessian
+            _, grad, hess = self.get_nll_grad_hessian(x, batch)
+            return grad, np.dot(np.array(hess), np.array(p))
         self.model.set_params(x)
         grad, hessp = self.model.grad_hessp_batch(
             p,
